@@ -25,6 +25,7 @@ type stubRec struct {
 	Stdin string   `json:"stdin_hex"`
 	Start int64    `json:"start_ns"`
 	End   int64    `json:"end_ns"`
+	Out   string   `json:"stdout_hex"`
 }
 
 type c20Step struct {
@@ -98,7 +99,7 @@ func runC20(c *ctx, r *Report) error {
 		nSan, nSets = 100000, 400
 	}
 	cpus := runtime.NumCPU()
-	r.Rule = fmt.Sprintf("(1) %d random scripts with placeholders (closed, unclosed, nested, adjacent, with line breaks and non-ASCII): real sanitizeExpressionsInScript (verif hook) vs model + length/outside-unchanged oracle; (2) %d workflow sets (1–4 files × 1–3 jobs × 0–5 run steps; shells at step / job / workflow / runner level; per-invocation tool behaviour drawn from ok, issue list, crash, kill -9, garbage, empty output; tool latency 0–40 ms; one set with > NumCPU slow invocations) linted by the real LintFiles with a stand-in tool that logs stdin and start/end times: every expected script arrives exactly once and byte-identical to setup + sanitize(script), ≤ NumCPU(=%d) overlapping tool processes, all processes ended before LintFiles returned, issues ↦ diagnostics at the run: key, failures ↦ fatal error; the schedule points recorded by the verif hooks are replayed through the model's transition system (every transition must be enabled, permit invariant checked in every state); non-trivial = distinct scripts with a placeholder / workflow sets with ≥ 2 invocations", nSan, nSets, cpus)
+	r.Rule = fmt.Sprintf("(1) %d random scripts with placeholders (closed, unclosed, nested, adjacent, with line breaks and non-ASCII): real sanitizeExpressionsInScript (verif hook) vs model + length/outside-unchanged oracle; (2) %d workflow sets (1–4 files × 1–3 jobs × 0–5 run steps; shells at step / job / workflow / runner level; per-invocation tool behaviour drawn from ok, issue list, crash, kill -9, kill -9 after complete output, garbage, empty output; tool latency 0–40 ms; one set with > NumCPU slow invocations) linted by the real LintFiles with a stand-in tool that logs stdin and start/end times: every expected script arrives exactly once and byte-identical to setup + sanitize(script), ≤ NumCPU(=%d) overlapping tool processes, all processes ended before LintFiles returned, issues ↦ diagnostics at the run: key, failures ↦ fatal error; (3) the outcome table: both tools × output {none, 1 issue, 3 issues, garbage, cut off mid-issue} × termination {exit 0, 1, 3, SIGKILL, cannot be executed}, observed outcome vs the model's callback on the same stdout; the schedule points recorded by the verif hooks are replayed through the model's transition system (every transition must be enabled, permit invariant checked in every state); non-trivial = distinct scripts with a placeholder / workflow sets with ≥ 2 invocations", nSan, nSets, cpus)
 	var b batch
 
 	// (1) sanitize
@@ -177,7 +178,7 @@ func runC20(c *ctx, r *Report) error {
 	}
 	defer func() { actionlint.VerifTrace = nil }()
 	shells := []string{"", "", "bash", "sh", "python", "pwsh", "bash -e {0}", "python {0}", "cmd"}
-	dirs := []string{"ok", "ok", "ok", "issues=1", "issues=3", "crash", "kill", "garbage", "empty"}
+	dirs := []string{"ok", "ok", "ok", "issues=1", "issues=3", "crash", "kill", "garbage", "empty", "killissues"}
 	for set := 0; set < nSets; set++ {
 		nFiles := 1 + rng.Intn(4)
 		failures := rng.Intn(3) == 0 // only a third of the sets contain failing invocations
@@ -195,7 +196,7 @@ func runC20(c *ctx, r *Report) error {
 				for si := 0; si < ns; si++ {
 					d := dirs[rng.Intn(5)]
 					if failures && rng.Intn(4) == 0 {
-						d = dirs[5+rng.Intn(4)]
+						d = dirs[5+rng.Intn(5)]
 					}
 					st := c20Step{shell: shells[rng.Intn(len(shells))], directive: d, sleepMs: rng.Intn(40)}
 					if big {
@@ -316,7 +317,7 @@ func runC20(c *ctx, r *Report) error {
 		anyFail := false
 		for _, e := range expects {
 			switch e.dir {
-			case "crash", "kill":
+			case "crash", "kill", "killissues":
 				anyFail = true
 			case "garbage":
 				if e.tool == "shellcheck" {
@@ -472,6 +473,120 @@ func runC20(c *ctx, r *Report) error {
 			r.sample(map[string]interface{}{"op": "lintfiles+stub", "files": nFiles, "invocations": len(recs), "max_overlap": max, "fatal": lerr != nil, "trace_len": len(acts)})
 		}
 		os.RemoveAll(dir)
+	}
+	// (3) outcome table: one invocation per (tool, output, termination); the observed outcome (fatal error / number of
+	// tool diagnostics) against the model's shellcheckCallback / pyflakesCallback on the same (outcome, stdout).
+	// no_silent_drop: a signalled tool, a tool that cannot be started, non-zero exit without output and (shellcheck)
+	// non-JSON output are fatal in the model, so an implementation that differs there drops diagnostics silently.
+	b.judge = func(cs Case) (string, string) {
+		if !strings.HasPrefix(cs.Op, "toolresult") {
+			return "", ""
+		}
+		if cs.Model == "fatal" && cs.Impl != "fatal" {
+			return "failure-not-fatal", "a tool invocation that was killed / could not start / failed without usable output did not yield a fatal error (implementation: " + cs.Impl + ")"
+		}
+		if cs.Model != "fatal" && cs.Impl != cs.Model {
+			return "issue-count", "tool output was turned into " + cs.Impl + ", the model (one diagnostic per issue printed) gives " + cs.Model
+		}
+		return "", ""
+	}
+	for _, tool := range []string{"sc", "py"} {
+		for _, o := range []string{"none", "issues1", "issues3", "garbage", "partial"} {
+			for _, t := range []string{"exit0", "exit1", "exit3", "kill", "cannotstart"} {
+				dir := filepath.Join(tmp, "outcome")
+				os.MkdirAll(dir, 0o755)
+				logPath := filepath.Join(dir, "stub.log")
+				os.Remove(logPath)
+				os.Setenv("VERIF_STUB_LOG", logPath)
+				shell := "bash"
+				if tool == "py" {
+					shell = "python"
+				}
+				src := fmt.Sprintf("on: push\njobs:\n  j:\n    runs-on: ubuntu-latest\n    steps:\n      - shell: %s\n        run: |\n          x = 1\n          # STUB:o=%s,t=%s\n", shell, o, t)
+				p := filepath.Join(dir, "w.yml")
+				os.WriteFile(p, []byte(src), 0o644)
+				sc, py := "", ""
+				exe := stub
+				if t == "cannotstart" {
+					// an existing file that cannot be executed: passes the LookPath of NewLinter? it does not, so use a
+					// file that is executable but not a valid program
+					exe = filepath.Join(dir, "notaprogram")
+					os.WriteFile(exe, []byte("\x00\x01not an executable"), 0o755)
+				}
+				if tool == "sc" {
+					sc = exe + " --as-shellcheck"
+					if t == "cannotstart" {
+						sc = exe
+					}
+				} else {
+					py = exe + " --as-pyflakes"
+					if t == "cannotstart" {
+						py = exe
+					}
+				}
+				var out bytes.Buffer
+				l, err := actionlint.NewLinter(&out, &actionlint.LinterOptions{Shellcheck: sc, Pyflakes: py, Color: actionlint.ColorOptionKindNever, Oneline: true})
+				if err != nil {
+					return err
+				}
+				var errs []*actionlint.Error
+				var lerr error
+				pmsg, to := guarded(60*time.Second, func() { errs, lerr = l.LintFiles([]string{p}, nil) })
+				r.Evaluations++
+				cs := Case{Op: "toolresult " + tool, Input: map[string]string{"tool": tool, "output": o, "termination": t, "workflow": src}}
+				if pmsg != "" || to {
+					cs.Note = pmsg
+					r.Crashes = append(r.Crashes, cs)
+					continue
+				}
+				impl := "fatal"
+				if lerr == nil {
+					n := 0
+					for _, e := range errs {
+						if e.Kind == "shellcheck" || e.Kind == "pyflakes" {
+							n++
+						}
+					}
+					impl = fmt.Sprintf("diags %d", n)
+				} else {
+					cs.Note = lerr.Error()
+				}
+				// what the tool printed (from its own log), and what encoding/json makes of it
+				stdoutHex := "-"
+				if fh, err := os.Open(logPath); err == nil {
+					scn := bufio.NewScanner(fh)
+					scn.Buffer(make([]byte, 1<<20), 1<<24)
+					for scn.Scan() {
+						var rec stubRec
+						if json.Unmarshal(scn.Bytes(), &rec) == nil && rec.Out != "" {
+							stdoutHex = rec.Out
+						}
+					}
+					fh.Close()
+				}
+				js := "N"
+				if raw, err := hex.DecodeString(strings.TrimPrefix(stdoutHex, "-")); err == nil {
+					var items []map[string]interface{}
+					if json.Unmarshal(raw, &items) == nil {
+						js = fmt.Sprint(len(items))
+					}
+				}
+				term, code := "exited", "0"
+				switch t {
+				case "exit1":
+					code = "1"
+				case "exit3":
+					code = "3"
+				case "kill":
+					term = "signaled"
+				case "cannotstart":
+					term, stdoutHex, js = "cannotstart", "-", "N"
+				}
+				r.hist("outcome:" + impl[:5])
+				r.nontrivial("outcome:" + tool + o + t)
+				b.add(fmt.Sprintf("toolresult %s %s %s %s %s", tool, term, code, stdoutHex, js), impl, cs)
+			}
+		}
 	}
 	_, err = b.flush(c, r)
 	return err
